@@ -394,4 +394,16 @@ theorem C09_closure_translated (icfg : ICfg) (debug : Bool) (r : Req) (pre : Hdr
 
 #print axioms C09_closure_translated
 
+
+/-- **C09 (translated state writers).** `(*Middleware).Reconfigure` and `(*Middleware).SetDebug` — the only writers of the
+configuration pointer and of the debug flag (`C07_only_these`) — are translated from /repo's middleware.go on every run (lock
+calls skipped: the lock programs are C07's facts) and, as functions on the model's state, are `Mw.reconfigure` and
+`Mw.setDebug`, the transitions every theorem about histories in this development speaks about: the error is returned before
+anything is written, the pointer is replaced, `debug = cfg != nil && debug`, `debug = b && icfg != nil`. -/
+theorem C09_state_translated (ext : Ext) (m : Mw) (cfg : Option Config) (b : Bool) :
+    Gen.GoSrc.reconfigure ext m cfg = Mw.reconfigure ext m cfg ∧ Gen.GoSrc.setDebug m b = Mw.setDebug m b :=
+  ⟨Translated.reconfigure_eq ext m cfg, Translated.setDebug_eq m b⟩
+
+#print axioms C09_state_translated
+
 end Cors
